@@ -3,7 +3,7 @@
     types; N, Z, positive, nat, comparison, spec_float stay Coq datatypes. *)
 From Coq Require Import ExtrOcamlBasic.
 From Coq Require Import ZArith NArith List Floats.SpecFloat.
-From RRSS Require Import Base.Outcome Base.Chars Base.F64 Base.F64Text Exec.Val Exec.ValErrorText.
+From RRSS Require Import Base.Outcome Base.UnicodeTables Base.Chars Base.F64 Base.F64Text Exec.Val Exec.ValErrorText.
 From RRSS Require Import Front.Token Front.Lexer Front.Parser Front.ParseErrorText.
 From RRSS Require Import Analysis.Visit Analysis.VisitRecorder Analysis.Fold Lint.Lint.
 From RRSS Require Import Exec.Ops Front.Ast Front.Poetic Exec.Env Exec.Interp Exec.RtErrorText.
@@ -19,4 +19,5 @@ Extraction "model.ml"
   binop_apply unop_apply compute_value poetic_digits exec_program rt_error_display rt_error_name
   range_concat range_new stmt_line block_line lower_name
   lex match_keyword ttype_name is_word parse parse_error_display perr_code_name perr_line
-  record_program events_program fold_num fold_str lint diag_display.
+  record_program events_program fold_num fold_str lint diag_display
+  alphabetic_ranges numeric_ranges whitespace_ranges uppercase_ranges lowercase_ranges tolower_table.
